@@ -22,8 +22,8 @@ use std::io::{Read, Write};
 use std::panic::{catch_unwind, AssertUnwindSafe};
 
 const PROP: &str = "C05";
-const ALLOC_BASE: u64 = 64 << 20;
-const ALLOC_PER_BYTE: u64 = 1024;
+const ALLOC_BASE: u64 = 4 << 20;
+const ALLOC_PER_BYTE: u64 = 256;
 
 #[derive(Clone, Copy, Debug, PartialEq, Eq, PartialOrd, Ord)]
 pub enum Entry {
@@ -169,12 +169,29 @@ pub fn gen_case(rng: &mut Rng, fx: &Fixtures) -> Case {
         h.extend_from_slice(&doc);
         doc = h;
     }
+    // rarely: a very long junk header delivered in tiny reads (any per-read cost that the library
+    // keeps instead of releasing shows up as allocation or stack growth)
+    let mut long_header = false;
+    if entry.uses_reader() && rng.chance(1, 100) {
+        let len = match rng.below(3) {
+            0 => rng.range_usize(200, 1000),
+            1 => rng.range_usize(1000, 5000),
+            _ => rng.range_usize(5000, 20000),
+        };
+        let mut h = b")]}'".to_vec();
+        let fill = *rng.pick(&b"x] \"}"[..]);
+        h.resize(len, fill);
+        h.extend_from_slice(*rng.pick(&[&b"\n"[..], b"\r\n"]));
+        h.extend_from_slice(&doc);
+        doc = h;
+        long_header = true;
+    }
     // at rest: 0..3 faults (10 % of runs are fault-free at rest and rely on the transport)
     let nfaults = rng.weighted(&[12, 56, 24, 8]);
     let mut rest_faults = Vec::new();
     let other = fx.maps[rng.below_usize(fx.maps.len())].bytes.clone();
     for _ in 0..nfaults {
-        let f = RestFault::ALL[rng.weighted(&[12, 8, 4, 2, 2, 2, 2, 2, 22, 44])];
+        let f = RestFault::ALL[rng.weighted(&[12, 8, 4, 2, 2, 2, 2, 2, 20, 36, 10])];
         if faults::apply(&mut doc, f, rng, &other) {
             rest_faults.push(f);
         }
@@ -182,7 +199,14 @@ pub fn gen_case(rng: &mut Rng, fx: &Fixtures) -> Case {
     // in flight
     let mut stats = TransportStats::default();
     let events = if entry.uses_reader() {
-        let chunking = match rng.weighted(&[25, 8, 15, 35, 7, 10]) {
+        let chunking = if long_header {
+            match rng.below(3) {
+                0 => Chunking::Geometric(1),
+                1 => Chunking::Geometric(2),
+                _ => Chunking::FineHead(doc.len().saturating_sub(rng.below_usize(64))),
+            }
+        } else {
+            match rng.weighted(&[25, 8, 15, 35, 7, 10]) {
             0 => Chunking::AllAtOnce,
             1 => {
                 if doc.len() <= 2048 {
@@ -195,6 +219,7 @@ pub fn gen_case(rng: &mut Rng, fx: &Fixtures) -> Case {
             3 => Chunking::Geometric(*rng.pick(&[2usize, 16, 256, 4096])),
             4 => Chunking::Near8k,
             _ => Chunking::FineHead(rng.below_usize(40)),
+            }
         };
         let mut chunks = cut(&doc, &chunking, rng);
         if rng.chance(12, 100) {
@@ -443,7 +468,7 @@ pub fn execute(c: &Case) -> Exec {
             format!("{e} polled the reader {} times ({} after end of stream) for {} bytes: no progress", log.read_calls, log.polls_after_eof, d.len()),
         );
     } else if peak > ALLOC_BASE + ALLOC_PER_BYTE * d.len() as u64 {
-        verdict = Verdict::Violated(format!("alloc:{e}"), format!("peak allocation {} bytes for a {}-byte input (limit 64 MiB + 1024 x input)", peak, d.len()));
+        verdict = Verdict::Violated(format!("alloc:{e}"), format!("peak allocation {} bytes for a {}-byte input (limit 4 MiB + 256 x input)", peak, d.len()));
     } else if let Some((sig, detail)) = cx.soft_violation.clone() {
         verdict = Verdict::Violated(sig, format!("{detail} (entry point {e}, doc {})", c.label));
     }
@@ -1133,7 +1158,7 @@ pub fn main(args: &Args) -> i32 {
             "returned_map_kinds": acc.map_kinds,
             "library_calls_by_api": acc.api_calls,
             "reserialised_and_decoded_again": acc.reserialised,
-            "peak_allocation": {"max_bytes_in_a_run": acc.max_peak, "max_ratio_to_input_x1000": acc.max_alloc_ratio_milli, "limit": "64 MiB + 1024 x input bytes"},
+            "peak_allocation": {"max_bytes_in_a_run": acc.max_peak, "max_ratio_to_input_x1000": acc.max_alloc_ratio_milli, "limit": "4 MiB + 256 x input bytes"},
             "simulated_time": {"unit": "read calls served (no clock in the crate)", "read_calls": acc.read_calls, "bytes_delivered": acc.bytes},
             "worker_process_deaths": process_deaths,
             "wall_clock_backstop_hits": backstop_hits,
